@@ -57,7 +57,8 @@ static long ndet(int tier)
 static long ngeq(void);
 static long count(int tier)
 {
-    return ndet(tier) + 8 + ngeq();	/* + one ensemble case per type */
+    return ndet(tier) + 8 + ngeq() + 6;	/* + one ensemble case per type
+					   + the p-value scale cases */
 }
 
 static vf_errlog elog;
@@ -982,9 +983,158 @@ done:
     vf_exec_end(r, mark);
 }
 
+/* ------------------------------------------------------------------ */
+/* the scale of the p-value                                             */
+/* ------------------------------------------------------------------ */
+/*
+ * A one-port calibration with n known reflects has 2(n - 3) degrees of
+ * freedom.  With a constant noise floor the weights do not depend on the
+ * data, so displacing one reading by d makes the statistic grow like d^2
+ * (to first order in d).  The displacement at which the solve begins to be
+ * rejected is found by bisection for two significance levels; the ratio of
+ * the squared thresholds is the ratio of the chi-square quantiles of those
+ * levels - a number that depends on the degrees of freedom only: 2 for two,
+ * 1.771 for four, 1.664 for six.  Deterministic; judges the p-value itself
+ * where the rate clause only bounds it.
+ */
+#define NPSCALE (2 * 3)
+
+/* upper tail of chi-square with an even number of degrees of freedom */
+static long double q_even(int df, long double chisq)
+{
+    long double x = chisq / 2, term = 1, sum = 1;
+    for (int i = 1; i < df / 2; ++i) {
+	term *= x / i;
+	sum += term;
+    }
+    return expl(-x) * sum;
+}
+static long double quantile_even(int df, long double alpha)
+{
+    long double lo = 0, hi = 400;
+    for (int it = 0; it < 200; ++it) {
+	long double mid = 0.5L * (lo + hi);
+	if (q_even(df, mid) > alpha)
+	    lo = mid;
+	else
+	    hi = mid;
+    }
+    return 0.5L * (lo + hi);
+}
+
+/* 1: solved, 0: rejected by the p-value test (EDOM), -1: anything else */
+static int pscale_try(vnacal_type_t type, int nstd, double d, double alpha,
+	vf_errlog *log)
+{
+    static const double complex gam[6] = { -1.0, 1.0, 0.0, 0.5 * I,
+	-0.4 - 0.3 * I, 0.3 - 0.6 * I };
+    const double fv[1] = { 1.0e9 };
+    const double nf[1] = { 1.0e-3 };
+    vnacal_t *vcp = vnacal_create((vnaerr_error_fn_t *)vf_errfn, log);
+    vnacal_new_t *vnp = vcp ? vnacal_new_alloc(vcp, type, 1, 1, 1) : NULL;
+    int rv = -1;
+
+    if (vnp == NULL || vnacal_new_set_frequency_vector(vnp, fv) != 0 ||
+	    vnacal_new_set_m_error(vnp, NULL, 1, nf, NULL) != 0 ||
+	    vnacal_new_set_pvalue_limit(vnp, alpha) != 0)
+	goto out;
+    for (int k = 0; k < nstd; ++k) {
+	double complex m0[1], *mm[1] = { m0 };
+	int h = k == 0 ? VNACAL_SHORT : k == 1 ? VNACAL_OPEN : k == 2 ?
+	    VNACAL_MATCH : vnacal_make_scalar_parameter(vcp, gam[k]);
+	m0[0] = (0.03 + 0.02 * I) + (0.9 - 0.15 * I) * gam[k] /
+	    (1.0 - (-0.05 + 0.1 * I) * gam[k]);
+	if (k == nstd - 1)
+	    m0[0] += d * (0.6 + 0.8 * I);
+	if (h < 0 || vnacal_new_add_single_reflect_m(vnp, mm, 1, 1, h, 1) != 0)
+	    goto out;
+    }
+    vf_errlog_reset(log);
+    errno = 0;
+    if (vnacal_new_solve(vnp) == 0)
+	rv = 1;
+    else if (errno == EDOM)
+	rv = 0;
+out:
+    if (vnp != NULL)
+	vnacal_new_free(vnp);
+    if (vcp != NULL)
+	vnacal_free(vcp);
+    return rv;
+}
+
+static void run_pscale(long idx, vf_result *r)
+{
+    static const double alpha[2] = { 1e-2, 1e-4 };
+    int nstd = 4 + (int)(idx % 3);
+    vnacal_type_t type = idx / 3 ? VNACAL_U8 : VNACAL_T8;
+    int df = 2 * (nstd - 3);
+    double thr[2];
+    char sig[100];
+    unsigned long mark = vf_exec_begin();
+
+    vf_desc(r, "%s 1x1, %d known reflects (%d degrees of freedom), noise "
+	    "floor 1e-3: displacement of the last reading at which the "
+	    "solve begins to be rejected, at significance 1e-2 and 1e-4",
+	    vnacal_type_to_name(type), nstd, df);
+    for (int a = 0; a < 2; ++a) {
+	double lo = 0.0, hi = 0.1;
+	if (pscale_try(type, nstd, lo, alpha[a], &elog) != 1 ||
+		pscale_try(type, nstd, hi, alpha[a], &elog) != 0) {
+	    snprintf(sig, sizeof(sig), "pscale-bracket:%s",
+		    vnacal_type_to_name(type));
+	    vf_fail(r, sig, "exact data are not accepted, or data off by "
+		    "100 noise floors not rejected, at significance %g: %s",
+		    alpha[a], elog.count ? elog.msg[0] : "");
+	    goto done;
+	}
+	for (int it = 0; it < 40; ++it) {
+	    double mid = 0.5 * (lo + hi);
+	    int rv = pscale_try(type, nstd, mid, alpha[a], &elog);
+	    ++r->transitions;
+	    if (rv == 1)
+		lo = mid;
+	    else if (rv == 0)
+		hi = mid;
+	    else {
+		vf_fail(r, "pscale-solve", "solve failed for another reason "
+			"at displacement %g: %s", mid,
+			elog.count ? elog.msg[0] : "");
+		goto done;
+	    }
+	}
+	thr[a] = 0.5 * (lo + hi);
+    }
+    {
+	double got = (thr[1] / thr[0]) * (thr[1] / thr[0]);
+	double want = (double)(quantile_even(df, alpha[1]) /
+		quantile_even(df, alpha[0]));
+	vf_note("thresholds %.6g and %.6g: ratio of squares %.4f, chi-square "
+		"quantiles give %.4f", thr[0], thr[1], got, want);
+	if (!(fabs(got - want) <= 0.025 * want)) {
+	    snprintf(sig, sizeof(sig), "pscale-ratio:%s:df%d",
+		    vnacal_type_to_name(type), df);
+	    vf_fail(r, sig, "%d degrees of freedom: rejection begins at a "
+		    "displacement of %.5g for significance 1e-2 and %.5g for "
+		    "1e-4; the squares are in the ratio %.4f, the chi-square "
+		    "quantiles of the two levels in the ratio %.4f", df,
+		    thr[0], thr[1], got, want);
+	    goto done;
+	}
+    }
+    r->nontrivial = 1;
+    vf_outcome(r, "pscale df=%d ok", df);
+done:
+    vf_exec_end(r, mark);
+}
+
 static void run(int tier, long idx, vf_result *r)
 {
     long nd = ndet(tier);
+    if (idx >= nd + 8 + ngeq()) {
+	run_pscale(idx - nd - 8 - ngeq(), r);
+	return;
+    }
     if (idx >= nd + 8) {
 	run_geq(idx - nd - 8, r);
 	return;
